@@ -290,25 +290,17 @@ func TestVerifC15Repro(t *testing.T) {
 		w(map[string]interface{}{"ev": "reset", "scn": sc.id, "nc": 1, "nw": 1, "init": []string{"Locked"}, "mode": "sound"})
 		if cerr == nil && strings.Contains(string(cout), "VERIF-CHILD-DONE") {
 			w(map[string]interface{}{"ev": "final", "timedout": false, "notfinal": []int{}, "instances": 0, "repro": true})
-		} else if strings.Contains(string(cout), "panic:") {
-			msg, where := "", ""
-			for _, l := range strings.Split(string(cout), "\n") {
-				if strings.HasPrefix(l, "panic:") && msg == "" {
-					msg = l
-				}
-				if strings.HasPrefix(l, "git.arvados.org") && strings.Contains(l, "lib/dispatchcloud/") && len(where) < 600 {
-					where += strings.TrimSpace(l) + "; "
-				}
-			}
+		} else if msg, where, code := vClassifyDeath(string(cout)); code {
 			w(map[string]interface{}{"ev": "crashed", "msg": msg, "where": where, "scn": sc.id})
 		} else {
-			// neither survived nor panicked: the script could not be applied
+			// neither survived nor died of a panic in the code under test: the script could not be
+			// applied (or the run itself failed): infrastructure, not an observation
 			tail := string(cout)
 			if len(tail) > 1500 {
 				tail = tail[len(tail)-1500:]
 			}
 			fmt.Printf("VERIF-NOTE repro scenario %d not applicable: %s\n", sc.id, tail)
-			w(map[string]interface{}{"ev": "note", "what": "repro not applicable"})
+			w(map[string]interface{}{"ev": "infra", "what": "regression scenario not applicable", "scn": sc.id})
 		}
 	}
 	fmt.Println("VERIF-DRIVER-DONE")
